@@ -1771,4 +1771,155 @@ theorem encode_u (L : Layer) (rules : AList NT (AList DP (List Alt))) (starts : 
 
 end UGrammar
 
+/-! ### which tensor entry feeds which rule (deterministic layer) -/
+section PrimTag
+
+theorem primTags_lookup (sym : AList DP Nat) (y : List ℝ) :
+    ∀ (ks : List DP) (T T' : AList DP ℝ), ks.Nodup → primTags sym y ks T = some T' →
+      (∀ P ∈ ks, P.kind = .prim → ∃ i t, sym.lookup P = some i ∧ y[i]? = some t ∧ AList.lookup P T' = some t)
+      ∧ (∀ Q, Q ∉ ks → AList.lookup Q T' = AList.lookup Q T) := by
+  intro ks
+  induction ks with
+  | nil => intro T T' _ h; simp [primTags] at h; subst h; simp
+  | cons P r ih =>
+    intro T T' hnd h
+    have hnd' := List.nodup_cons.mp hnd
+    simp only [primTags] at h
+    by_cases hk : P.kind = .prim
+    · simp only [hk, if_true] at h
+      cases hs : sym.lookup P with
+      | none => simp [hs] at h
+      | some i =>
+        cases hy : y[i]? with
+        | none => simp [hs, hy] at h
+        | some t =>
+          simp only [hs, hy] at h
+          obtain ⟨i1, i2⟩ := ih _ _ hnd'.2 h
+          constructor
+          · intro Q hQ hkQ
+            rcases List.mem_cons.mp hQ with h' | h'
+            · subst h'
+              exact ⟨i, t, hs, hy, by rw [i2 Q hnd'.1, AList.lookup_insert_self]⟩
+            · exact i1 Q h' hkQ
+          · intro Q hQ
+            have hQ' : Q ≠ P ∧ Q ∉ r := by simpa [List.mem_cons, not_or] using hQ
+            rw [i2 Q hQ'.2, AList.lookup_insert_ne _ _ hQ'.1]
+    · simp only [hk, if_false] at h
+      obtain ⟨i1, i2⟩ := ih _ _ hnd'.2 h
+      constructor
+      · intro Q hQ hkQ
+        rcases List.mem_cons.mp hQ with h' | h'
+        · subst h'; exact absurd hkQ hk
+        · exact i1 Q h' hkQ
+      · intro Q hQ
+        have hQ' : Q ≠ P ∧ Q ∉ r := by simpa [List.mem_cons, not_or] using hQ
+        exact i2 Q hQ'.2
+
+theorem assignVars_lookup (tvo : Bool) (ε : ℝ) :
+    ∀ (vars : List DP) (nvl : ℝ) (T : AList DP ℝ) (Q : DP), Q ∉ vars →
+      AList.lookup Q (assignVars tvo ε vars nvl T).1 = AList.lookup Q T := by
+  intro vars
+  induction vars with
+  | nil => intro nvl T Q _; rfl
+  | cons P r ih =>
+    intro nvl T Q hQ
+    have hQ' : Q ≠ P ∧ Q ∉ r := by simpa [List.mem_cons, not_or] using hQ
+    simp only [assignVars]
+    rw [ih _ _ Q hQ'.2, AList.lookup_insert_ne _ _ hQ'.1]
+
+theorem assignConsts_lookup :
+    ∀ (cs : List DP) (nvl : ℝ) (T : AList DP ℝ) (Q : DP), Q ∉ cs →
+      AList.lookup Q (assignConsts cs nvl T) = AList.lookup Q T := by
+  intro cs
+  induction cs with
+  | nil => intro nvl T Q _; rfl
+  | cons P r ih =>
+    intro nvl T Q hQ
+    have hQ' : Q ≠ P ∧ Q ∉ r := by simpa [List.mem_cons, not_or] using hQ
+    simp only [assignConsts]
+    rw [ih _ _ Q hQ'.2, AList.lookup_insert_ne _ _ hQ'.1]
+
+/-- the tag of a primitive rule after `tagNT`: its raw tag shifted by
+    `log(c / Σ_Q exp(raw tag of Q))`, `c = 1 - v` if variables or constants exist, else 1 -/
+theorem tagNT_lookup_prim (v ε : ℝ) (tvo : Bool) (prim : AList DP ℝ) (vars consts : List DP)
+    (hp : prim ≠ []) (P : DP) (hPv : P ∉ vars) (hPc : P ∉ consts) :
+    AList.lookup P (tagNT v ε tvo prim vars consts)
+      = (AList.lookup P prim).map
+          (· + Real.log ((if vars.isEmpty && consts.isEmpty then 1 else 1 - v) / mass (fun _ => true) prim)) := by
+  have hpos := mass_true_pos hp
+  have hpos' : ExpLog.pos (mass (fun _ => true) prim) = true := (pos_real _).mpr hpos
+  unfold tagNT
+  rw [total_eq]
+  by_cases hvc : (!vars.isEmpty || !consts.isEmpty) = true
+  · have hc : (vars.isEmpty && consts.isEmpty) = false := by
+      cases h1 : vars.isEmpty <;> cases h2 : consts.isEmpty <;> simp [h1, h2] at hvc ⊢
+    simp only [hvc, if_true, hpos', hc, Bool.false_eq_true, if_false]
+    rw [assignConsts_lookup _ _ _ P hPc, assignVars_lookup tvo ε _ _ _ P hPv]
+    simp only [log_real, ofNat_real, Nat.cast_one]
+    exact lookup_map_val (fun t : ℝ => t + Real.log ((1 - v) / mass (fun _ => true) prim)) P prim
+  · have hc : (vars.isEmpty && consts.isEmpty) = true := by
+      cases h1 : vars.isEmpty <;> cases h2 : consts.isEmpty <;> simp [h1, h2] at hvc ⊢
+    simp only [hvc, Bool.false_eq_true, if_false, hpos', if_true, hc]
+    simp only [log_real, ofNat_real, Nat.cast_one]
+    exact lookup_map_val (fun t : ℝ => t + Real.log (1 / mass (fun _ => true) prim)) P prim
+
+/-- One entry of `tensor2logProbDet`: the primitive rule `P` of `S` reads the entry
+    `start(abs S) + index(P)` of the (slice-wise normalised) tensor — the position `posOf L S P`
+    that `encode` marks — and its weight is the re-normalised softmax over the primitive rules
+    derivable from `S`: `exp(tag) = c · exp(y_P) / Σ_Q exp(y_Q)`. -/
+theorem tagEntryDet_prim (L : Layer) (v ε : ℝ) (tvo : Bool) (x : List ℝ)
+    (e : NT × AList DP (List NT)) (t : NT × AList DP ℝ)
+    (h : tagEntryDet L v ε tvo x e = some t) (hnd : (AList.keys e.2).Nodup) :
+    ∃ prim : AList DP ℝ, AList.keys prim = (AList.keys e.2).filter (kindIs .prim) ∧
+      ∀ P ∈ AList.keys e.2, P.kind = .prim →
+        ∃ pos y, posOf L e.1 P = some pos ∧ AList.lookup P prim = some y
+          ∧ (∃ key start length sym i, AList.lookup e.1 L.real2abs = some key
+              ∧ AList.lookup key L.abs2index = some (start, length, sym) ∧ AList.lookup P sym = some i
+              ∧ pos = start + i ∧ (slice x start length)[i]? = some y)
+          ∧ AList.lookup P t.2 = some (y + Real.log
+              ((if countKind .var e.2 + countKind .const e.2 = 0 then 1 else 1 - v) / mass (fun _ => true) prim)) := by
+  unfold tagEntryDet at h
+  cases h1 : AList.lookup e.1 L.real2abs with
+  | none => simp [h1] at h
+  | some key =>
+    cases h2 : AList.lookup key L.abs2index with
+    | none => simp [h1, h2] at h
+    | some idx =>
+      obtain ⟨start, length, sym⟩ := idx
+      simp only [h1, h2] at h
+      cases h3 : primTags sym (slice x start length) (AList.keys e.2) [] with
+      | none => simp [h3] at h
+      | some prim =>
+        simp only [h3, Option.some.injEq] at h
+        subst h
+        have hkeys : AList.keys prim = (AList.keys e.2).filter (kindIs .prim) := by
+          have := primTags_keys sym (slice x start length) (AList.keys e.2) [] prim hnd
+            (by intro P _; simp [AList.keys]) h3
+          simpa [AList.keys] using this
+        obtain ⟨l1, _⟩ := primTags_lookup sym (slice x start length) (AList.keys e.2) [] prim hnd h3
+        refine ⟨prim, hkeys, ?_⟩
+        intro P hP hk
+        obtain ⟨i, y, hs, hy, hl⟩ := l1 P hP hk
+        have hpne : prim ≠ [] := by
+          intro hp; rw [hp] at hl; simp [AList.lookup] at hl
+        have hPv : P ∉ (AList.keys e.2).filter (kindIs .var) := by
+          intro hmem; have := filter_kind_sel hmem; rw [hk] at this; exact absurd this (by decide)
+        have hPc : P ∉ (AList.keys e.2).filter (kindIs .const) := by
+          intro hmem; have := filter_kind_sel hmem; rw [hk] at this; exact absurd this (by decide)
+        refine ⟨start + i, y, ?_, hl, ⟨key, start, length, sym, i, rfl, h2, hs, rfl, hy⟩, ?_⟩
+        · simp [posOf, h1, h2, hs]
+        · rw [tagNT_lookup_prim v ε tvo prim _ _ hpne P hPv hPc, hl]
+          simp only [Option.map_some, Option.some.injEq]
+          have hgen : ∀ A B : List DP, (A.isEmpty && B.isEmpty) = decide (A.length + B.length = 0) := by
+            intro A B; cases A <;> cases B <;> simp
+          rw [hgen]
+          have e1 : decide (((AList.keys e.2).filter (kindIs .var)).length + ((AList.keys e.2).filter (kindIs .const)).length = 0)
+              = decide (countKind .var e.2 + countKind .const e.2 = 0) := rfl
+          rw [e1]
+          by_cases hz : countKind .var e.2 + countKind .const e.2 = 0
+          · simp only [hz, decide_true, if_true]
+          · simp only [hz, decide_false, Bool.false_eq_true, if_false]
+
+end PrimTag
+
 end PS.Predictor
